@@ -58,6 +58,12 @@ CONSTANTS
   HistShapes,  \* shapes whose instances are also explored AFTER a dataset history (a fit of another dataset on the
                \* same / a copied / a parent dataset object)
   HistKinds,   \* the histories explored
+  ScaleSeq,    \* the unit exponents k: an instance is realised in units 2^k (data, model, noise, sky all times 2^k);
+               \* every instance gets one of them (rotation by ScaleRot), the scale theorems range over all of them
+  ScaleRot,    \* rotation offset (the seed)
+  Ln2Hi, Ln2Lo,\* LogScale * ln 2 = Ln2Hi + Ln2Lo/1000 (69314.718 for LogScale = 100000)
+  RegByInstance,\* FALSE: the design (one block of the regularization matrix per LINEAR OBJECT).  TRUE: a design that looks
+               \* the parameter range up by regularization INSTANCE (shown to be wrong by TLC when instances are shared)
   Memoise      \* FALSE: the design (every fit computes from the arrays it is given).  TRUE: a design that stores the
                \* noise normalization with the dataset object at the first fit (shown to be wrong by TLC)
 
@@ -67,6 +73,7 @@ ASSUME LogScale = 100000 =>
          /\ LogTable[0] \in {183787, 183788}
          /\ LogTable[1] - LogTable[0] \in {138629, 138630}
          /\ LogTable[0] - LogTable[-1] \in {138629, 138630}
+         /\ Ln2Hi = 69314 /\ Ln2Lo = 718        \* ln 2 = 0.69314718055994...
 
 Off == 2000000000   \* alpha sentinel: "not on the lattice / not finite / out of range"
 
@@ -96,6 +103,11 @@ NormRes2(d, m, e, sky) == [k \in DOMAIN d |-> ((d[k] - sky) - m[k]) * Scale2(e[k
 Chi2Map4(d, m, e, sky) == [k \in DOMAIN d |-> ((d[k] - sky) - m[k]) * ((d[k] - sky) - m[k]) * Scale4(e[k])]
 Chi2Q(d, m, e, sky)   == SumSeq(Chi2Map4(d, m, e, sky))
 NoiseNormFix(e)       == SumSeq([k \in DOMAIN e |-> LogTable[e[k]]])
+\* the same dataset in units 2^k: sigma = 2^(e+k), ln(2 pi sigma^2) = ln(2 pi 4^e) + 2 k ln 2.  Everything else
+\* (normalized residuals, chi-squared, signal-to-noise, residual flux fraction) does not depend on the unit;
+\* residual, data and model are the integers above times 2^k.
+Ln2Times(q) == q * Ln2Hi + (q * Ln2Lo) \div 1000
+NoiseNormFixAt(e, k) == NoiseNormFix(e) + Ln2Times(2 * k * Len(e))
 SigToNoise2(d, e, sky) == [k \in DOMAIN d |-> Max0((d[k] - sky) * Scale2(e[k]))]
 \* residual flux fraction in units of 1/den: pinned where the data value is not zero
 RffOk(rff, den, d, m, sky) ==
@@ -188,12 +200,21 @@ AnyReg(objs) == \E o \in 1 .. Len(objs) : objs[o].reg
 ReducedAsCode(M, objs) == IF AllReg(objs) THEN M ELSE DeleteCols(DeleteRows(M, NoRegIndexList(objs)), NoRegIndexList(objs))
 ReducedVecAsCode(v, objs) == IF AllReg(objs) THEN v
                              ELSE LET kp == Keep(Len(v), NoRegIndexList(objs)) IN [a \in 1 .. Len(kp) |-> v[kp[a]]]
+\* regularization INSTANCES: rid[o] = 0 for an object without regularization, else the id of its instance; two objects
+\* with the same id share one instance (the same Python object).  The block of an object is its own parameter range.
+BlockQuad(s, H, objs, o) ==
+    LET idx == [c \in 1 .. objs[o].p |-> OffP(objs, o) + c] IN Quad(SubVec(s, idx), SubMat(H, idx))
+\* the faulty design: the range is looked up by instance, the last object holding the instance wins
+LastHolder(rid, o) == Max({ x \in DOMAIN rid : rid[x] = rid[o] })
+RegTermByInstance(inv) ==
+    SumOver({ o \in 1 .. Len(inv.objs) : inv.objs[o].reg }, LAMBDA o : BlockQuad(inv.s, inv.H, inv.objs, LastHolder(inv.rid, o)))
 InvEvalAsCode(inv) ==
     IF ~ AnyReg(inv.objs) THEN [regq |-> 0, detc |-> 1, detr |-> 1]
     ELSE LET fr == ReducedAsCode(inv.FH, inv.objs)
              hr == ReducedAsCode(inv.H, inv.objs)
              sr == ReducedVecAsCode(inv.s, inv.objs)
-         IN [regq |-> Quad(sr, hr), detc |-> Det(fr, Len(fr)), detr |-> Det(hr, Len(hr))]
+         IN [regq |-> IF RegByInstance THEN RegTermByInstance(inv) ELSE Quad(sr, hr),
+             detc |-> Det(fr, Len(fr)), detr |-> Det(hr, Len(hr))]
 
 -----------------------------------------------------------------------------
 (* The bounded families *)
@@ -220,14 +241,19 @@ InvFamily ==
     UNION { LET P == TotalP(lay)
                 own == [c \in 1 .. P |-> ObjOfP(lay, c)]
                 gs == Grams(P)
-            IN UNION { LET h == HOf(lay, kk, own) IN
+            IN UNION { LET h == HOf(lay, kk, own)
+                           \* own instances, or one instance shared by the objects whose blocks are the same matrix
+                           own_ids == [o \in DOMAIN lay |-> IF lay[o].reg THEN o ELSE 0]
+                           shared_ids == [o \in DOMAIN lay |-> IF lay[o].reg
+                                            THEN Min({ x \in RegObjs(lay) : lay[x].p = lay[o].p /\ kk[x] = kk[o] }) ELSE 0]
+                       IN
                        { [objs |-> lay, H |-> h,
                           FH |-> [a \in 1 .. P |-> [b \in 1 .. P |->
                                     g[a][b] + h[a][b] + (IF a = b /\ ~ lay[own[a]].reg THEN 1 ELSE 0)]],
-                          s |-> [c \in 1 .. P |-> sp[c]]] : g \in gs, sp \in SPats }
+                          s |-> [c \in 1 .. P |-> sp[c]], rid |-> ri] : g \in gs, sp \in SPats, ri \in {own_ids, shared_ids} }
                      : kk \in [RegObjs(lay) -> RegKinds] }
           : lay \in Layouts }
-NoInv == [objs |-> << >>, H |-> << >>, FH |-> << >>, s |-> << >>]
+NoInv == [objs |-> << >>, H |-> << >>, FH |-> << >>, s |-> << >>, rid |-> << >>]
 
 \* ---- dataset histories ---------------------------------------------------
 \* The judged fit may be preceded by a fit of ANOTHER dataset that lives on the same Python object, on an object the
@@ -284,6 +310,9 @@ DD == [k \in DOMAIN pix |-> pix[k][1]]
 MM == [k \in DOMAIN pix |-> pix[k][2]]
 EE == [k \in DOMAIN pix |-> pix[k][3]]
 HasInv == Len(inv.objs) > 0
+\* the unit of this instance: rotation over ScaleSeq by a hash of the instance
+KK == ScaleSeq[((7 * Abs(SumSeq(DD)) + 3 * Abs(SumSeq(MM)) + SumSeq(EE) + 2 * Len(pix) + 5 * Cardinality(U) + sky + HH + 3 * WW
+                 + Len(inv.s) + 13 + ScaleRot) % Len(ScaleSeq)) + 1]
 
 WithInv(f) == [fit |-> f,
                inv |-> IF HasInv THEN InvEvalAsCode(inv) ELSE [regq |-> 0, detc |-> 1, detr |-> 1],
@@ -306,7 +335,7 @@ EvalSlim ==
     /\ obs' = WithInv(Memo(SlimEval(DD, MM, EE, sky)))
     /\ PrintT(ToJson([k |-> "inst", h |-> HH, w |-> WW,
                       u |-> [q \in 1 .. Cardinality(U) |-> Lin(SlimSeq(U, HH, WW)[q], WW)],
-                      d |-> DD, m |-> MM, e |-> EE, sky |-> sky, hasinv |-> HasInv, inv |-> inv, hist |-> hist]))
+                      d |-> DD, m |-> MM, e |-> EE, sky |-> sky, scale |-> KK, hasinv |-> HasInv, inv |-> inv, hist |-> hist]))
     /\ UNCHANGED << shape, U, pix, sky, inv, hist >>
 
 EvalNative(j) ==
@@ -357,6 +386,17 @@ Homogeneity ==
                   e2 == [k \in DOMAIN pix |-> EE[k] + 1]
               IN /\ Chi2Q(d2, m2, e2, 2 * sky) = obs.fit.chi2q
                  /\ Abs(NoiseNormFix(e2) - obs.fit.nn - Len(pix) * (LogTable[1] - LogTable[0])) <= Len(pix)
+\* units: for every scale of the family the normalization moves by exactly 2 k n ln 2; where the shifted exponents are
+\* still in the table, table and shift agree (this ties Ln2Hi/Ln2Lo to LogTable); chi-squared is unit free by construction
+ScaleShiftMatchesTable ==
+    Slim => /\ \A q \in 1 .. Len(ScaleSeq) :
+                  NoiseNormFixAt(EE, ScaleSeq[q]) - obs.fit.nn = Ln2Times(2 * ScaleSeq[q] * Len(pix))
+            /\ \A k \in {-1, 1} : (\A j \in DOMAIN pix : EE[j] + k \in DOMAIN LogTable) =>
+                  Abs(NoiseNormFix([j \in DOMAIN pix |-> EE[j] + k]) - NoiseNormFixAt(EE, k)) <= Len(pix) + 1
+\* sharing a regularization instance between linear objects changes nothing: the blocks belong to the objects
+SharedInstancesNeverMatter ==
+    (phase # "given" /\ HasInv) =>
+        obs.inv.regq = SumOver({ o \in 1 .. Len(inv.objs) : inv.objs[o].reg }, LAMBDA o : BlockQuad(inv.s, inv.H, inv.objs, o))
 \* reduced matrices: np.delete of the no-regularization index list = selection of the regularised parameters;
 \* the three inversion terms range over the regularised parameters only
 ReductionSelectsRegularisedParameters ==
